@@ -36,6 +36,27 @@ def render(d, inner=''):
     raise HarnessError('bad desc %r' % (d,))
 
 
+def is_variadic(ct):
+    """variadic-ness of a function-pointer ctype, from its spelling: the type's own argument list is
+    the parenthesis that follows its own '(*)' marker (the first one in the name; function-pointer
+    result types wrap around it, function-pointer arguments come after it).  The 'ellipsis'
+    attribute cannot be used: it is True for every signature libffi cannot call."""
+    name = ct.cname
+    i = name.find('(*)')
+    if i < 0:
+        return name.endswith('...)')
+    j = i + 3
+    depth = 0
+    for k in range(j, len(name)):
+        if name[k] == '(':
+            depth += 1
+        elif name[k] == ')':
+            depth -= 1
+            if depth == 0:
+                return name[j:k].rstrip().endswith('...')
+    return False
+
+
 def uses_agg(d):
     k = d[0]
     if k in ('agg', 'tdef'):
@@ -73,7 +94,7 @@ def gen_desc(rng, depth, allow_agg, top=True):
         return ['ptr', gen_desc(rng, depth - 1, allow_agg, False)]
     if r < 0.82:
         item = gen_desc(rng, depth - 1, allow_agg, False)
-        n = None if (top and rng.chance(0.3)) else rng.randint(1, 5)
+        n = None if (top and rng.chance(0.3)) else (0 if rng.chance(0.15) else rng.randint(1, 5))
         return ['arr', item, n]
     nargs = rng.randint(0, 3)
     args = []
@@ -161,7 +182,7 @@ class Run(object):
             # cif, which includes non-variadic signatures libffi cannot call (e.g. a union passed
             # by value).  The C type's own spelling is authoritative for variadic-ness.
             d = ('func', self.describe(ct.result, memo), tuple(self.describe(a, memo) for a in ct.args),
-                 ct.cname.endswith('...)'), ct.abi)
+                 is_variadic(ct), ct.abi)
         else:
             raise HarnessError('unknown ctype kind %r' % k)
         memo[i] = (d, ct)
@@ -187,10 +208,51 @@ class Run(object):
         return n
 
     # ---- building ----
+    def shape_mismatch(self, ct, d):
+        """does the ctype that was handed out describe the C type that was asked for?  (one object
+        standing for two different C types is the other half of 'same object iff same type')"""
+        k = d[0]
+        if k == 'prim':
+            return None if (ct.kind == 'primitive' and ct.cname == d[1]) else 'primitive %r' % d[1]
+        if k == 'void':
+            return None if ct.kind == 'void' else 'void'
+        if k in ('agg', 'tdef'):
+            return None
+        if k == 'ptr':
+            if ct.kind != 'pointer':
+                return 'a pointer'
+            return self.shape_mismatch(ct.item, d[1])
+        if k == 'arr':
+            if ct.kind != 'array':
+                return 'an array'
+            if ct.length != d[2]:
+                return 'an array of length %r (got length %r)' % (d[2], ct.length)
+            return self.shape_mismatch(ct.item, d[1])
+        if k == 'func':
+            if ct.kind != 'function':
+                return 'a function pointer'
+            if len(ct.args) != len(d[2]):
+                return 'a function of %d arguments' % len(d[2])
+            if is_variadic(ct) != bool(d[3]):
+                return 'a %svariadic function' % ('' if d[3] else 'non-')
+            for a, da in zip(ct.args, d[2]):
+                m = self.shape_mismatch(a, da)
+                if m:
+                    return m
+            return self.shape_mismatch(ct.result, d[1])
+        return None
+
+    def checked(self, ct, d, route):
+        m = self.shape_mismatch(ct, d)
+        if m is not None:
+            raise Violation('C27.1', 'asked (%s) for %r, got the ctype %r: expected %s -- one ctype object stands '
+                            'for two different C types' % (route, render(d), ct.cname, m))
+        return ct
+
     def build_string(self, entry, d):
         kind, ffi = entry
         s = render(d)
-        return ffi.typeof(s)
+        return self.checked(ffi.typeof(s), d, 'typeof(string) through %s' % kind)
 
     def build_direct(self, entry, d):
         """through the backend constructors, component by component (no per-FFI cache involved)"""
@@ -229,15 +291,17 @@ class Run(object):
         if how == 'string':
             ct = self.build_string(entry, d)
         elif how == 'direct':
-            ct = self.build_direct(entry, d)
+            ct = self.checked(self.build_direct(entry, d), d, 'backend constructors')
         else:   # through a cdata
             kind, ffi = entry
+            t = self.build_string(entry, d)
             if d[0] == 'ptr' and d[1][0] not in ('func',):
-                ct = ffi.typeof(ffi.cast(render(d), 0))
+                ct = self.checked(ffi.typeof(ffi.cast(t, 0)), d, 'typeof(cast)')
             elif d[0] == 'arr' and d[2] is not None:
-                ct = ffi.typeof(ffi.new(render(d)))
+                ct = self.checked(ffi.typeof(ffi.new(t)), d, 'typeof(new)')
             else:
-                ct = self.build_string(entry, d)
+                ct = t
+            del t
         if entry[0].startswith('module') or entry[0] == 'cffi':
             self.out.probe('built_through_C_parser')
         else:
